@@ -21,3 +21,28 @@ Print Assumptions C10_jwt_parts_no_panic.
 Theorem C10_pinned_splitter_refuted : forall s : string, contains tilde s = false -> sd_jwt_parts_pinned s = Panic.
 Proof. exact sd_jwt_parts_pinned_panics. Qed.
 Print Assumptions C10_pinned_splitter_refuted.
+
+(* At the entry points: if the JWT dependency does not panic (oracles o_jwt, o_kb, e_sign; see the known
+   finding KF-1 for where it does), then no input string makes Verifier::verify, Holder::verify,
+   Holder::presentation or Holder::build panic: every slice, index and subtraction of the library's own code is
+   modelled by a checked primitive of Out.v/SplitM.v, restoration and stripping are total functions. *)
+Require Import SDJ.Out SDJ.Verify SDJ.C10Proofs.
+Theorem C10_verifier_verify_no_panic :
+  forall O, (forall j, o_jwt O j <> Panic) -> (forall k n e, o_kb O k n e <> Panic) ->
+  forall token kbpol, verifier_verify O token kbpol <> Panic.
+Proof. exact verifier_verify_no_panic. Qed.
+Print Assumptions C10_verifier_verify_no_panic.
+
+Theorem C10_holder_verify_no_panic :
+  forall O, (forall j, o_jwt O j <> Panic) -> forall token, holder_verify O token <> Panic.
+Proof. exact holder_verify_no_panic. Qed.
+Print Assumptions C10_holder_verify_no_panic.
+
+Theorem C10_holder_presentation_no_panic : forall O token, holder_presentation O token <> Panic.
+Proof. exact holder_presentation_no_panic. Qed.
+Print Assumptions C10_holder_presentation_no_panic.
+
+Theorem C10_holder_build_no_panic :
+  forall O (E : build_env) h, (forall hd c, e_sign E hd c <> Panic) -> holder_build O E h <> Panic.
+Proof. exact holder_build_no_panic. Qed.
+Print Assumptions C10_holder_build_no_panic.
